@@ -120,8 +120,8 @@ def r6_derives_and_attrs(toks, log):
                     toks[close + 1] = toks[close + 1].clone(ws=t.ws)
                 i = close + 1
                 continue
-            if name in ("serde", "allow", "inline", "must_use", "doc", "rustfmt", "cfg", "cfg_attr", "default"):
-                if name in ("serde", "default"):
+            if name in ("serde", "allow", "inline", "must_use", "doc", "rustfmt", "cfg", "cfg_attr"):
+                if name in ("serde",):
                     log.add("R6", t, render(toks[i:close + 1]))
                 if name == "default" and False:
                     pass
